@@ -475,7 +475,7 @@ func R20() Rule {
 				for _, r := range returnsIn(cUnlock) {
 					passed := false
 					for _, pc := range P.PassedValidators(r.Block()) {
-						if pc.Call.Call.StaticCallee() == selFn && pc.Want.Value != nil && pc.Want.Value.Kind() == constant.Bool && constant.BoolVal(pc.Want.Value) {
+						if pc.Call.Call.StaticCallee() == selFn && pc.Want != nil && pc.Want.Value != nil && pc.Want.Value.Kind() == constant.Bool && constant.BoolVal(pc.Want.Value) {
 							passed = true
 						}
 					}
